@@ -250,7 +250,13 @@ class Exec:
                 raise Unsupported("non-finite float lifted to Real")
             return z3.RealVal(repr(v)), "real"
         if isinstance(v, EnumVal):
-            return z3.Const(f"enum.{v.enum}.{v.member}", ObjSort), "any"
+            c = z3.Const(f"enum.{v.enum}.{v.member}", ObjSort)
+            seen = self.enum_seen.setdefault(v.enum, {})
+            if v.member not in seen:
+                for other in seen.values():
+                    self.pc.append(c != other)   # distinct members of one enum are distinct objects
+                seen[v.member] = c
+            return c, "any"
         if v is None:
             return z3.Const("box.None", ObjSort), "any"
         if isinstance(v, (HObj, HDict, HList)):
@@ -385,6 +391,7 @@ class Exec:
             self.boxes = {}
             self.unknown_feasibility = False
             self.imprecise = None
+            self.enum_seen = {}
             self.path_token = object()
             self.path_id = "".join("T" if d else "F" for d in prefix)
             try:
